@@ -29,6 +29,7 @@ Self-test deviations MalformedUnanswered / ClusterOneListenerOnly must be refute
 import json
 import os
 import threading
+import concurrent.futures as cf
 
 import vlib
 from props import sozu_compose
@@ -253,13 +254,24 @@ def run_own(rep, wd, tier, replay):
     total_runs = 0
     total_lines = 0
     exhaustive = True
-    for idx, (name, kw, sample) in enumerate(generator_families(thorough)):
+    families = generator_families(thorough)
+
+    def generate(name, kw):
         beh = os.path.join(wd, "gen_%s.ndjson" % name)
         with open(beh, "w") as f:
             g = vlib.tlc("MC_WorkerCtl", write_cfg(wd, "gen_%s.cfg" % name, spec="GenSpec", det=True, emit=True,
                                                    dev=devs, tail=GEN_TAIL, **kw),
                          PID, workers=workers, timeout=2400, want_replay=True,
                          replay_sink=lambda o: f.write(json.dumps(o) + "\n"))
+        return g, beh
+
+    # TLC generates the next family while the current one is replayed
+    pool = cf.ThreadPoolExecutor(max_workers=1)
+    nxt = pool.submit(generate, families[0][0], families[0][1])
+    for idx, (name, kw, sample) in enumerate(families):
+        g, beh = nxt.result()
+        if idx + 1 < len(families):
+            nxt = pool.submit(generate, families[idx + 1][0], families[idx + 1][1])
         rep.add_tlc(g)
         if g["violated"]:
             raise vlib.ToolError("generator %s reported a violation: %s" % (name, g["violated"]))
@@ -301,7 +313,8 @@ def run_own(rep, wd, tier, replay):
     trace_events = 0
     tcfg = write_cfg(wd, "trace.cfg", dev=devs, tail=TRACE_TAIL, **TRACE_KW)
     unstable_runs = 0
-    for c in range(0, n_runs, chunk):
+
+    def drive(c):
         trace = os.path.join(wd, "trace_%d.ndjson" % c)
         out = vlib.run_harness(bins["drive_workerctl"],
                                ["--seed", str(seed * 7919 + c), "--runs", str(min(chunk, n_runs - c)), "--threads", "12",
@@ -309,7 +322,14 @@ def run_own(rep, wd, tier, replay):
         summ = [o for o in out if o.get("kind") == "summary"]
         if not summ:
             raise vlib.ToolError("drive_workerctl produced no summary")
-        summ = summ[0]
+        return trace, summ[0]
+
+    # the next chunk is driven while TLC (one worker) validates the current one
+    nxt = pool.submit(drive, 0)
+    for c in range(0, n_runs, chunk):
+        trace, summ = nxt.result()
+        if c + chunk < n_runs:
+            nxt = pool.submit(drive, c + chunk)
         trace_events += summ["events"]
         # Every wait of the driver is a deadline: a run rejected because the machine stalled a worker thread conforms
         # when it is driven again alone (same seed, same script) with four times the patience. Such a run is cut out
@@ -353,6 +373,7 @@ def run_own(rep, wd, tier, replay):
                           name="trace_%s_%d.ndjson" % (klass.replace(":", "_"), c))
             break
         rep.cov["evaluations"] += summ["events"]
+    pool.shutdown(wait=True)
     vlib.log("trace validation: %d runs accepted of %d, %d events" % (accepted_runs, n_runs, trace_events))
 
     rep.cov["traces_validated_against_impl"] = total_runs + accepted_runs
